@@ -49,7 +49,7 @@ func GenOrder(t *rapid.T) *OrderCase {
 	c := &OrderCase{ViaAny: rapid.IntRange(0, 2).Draw(t, "viaAny") == 0, Ambient: genAmbient(t), N: rapid.IntRange(1, 50).Draw(t, "n"), Procs: rapid.SampledFrom([]int{1, 2, 4, 16}).Draw(t, "procs"), UseCtx: rapid.Bool().Draw(t, "usectx")}
 	nh := rapid.IntRange(1, 2).Draw(t, "nh")
 	for i := 0; i < nh; i++ {
-		c.Handlers = append(c.Handlers, H{Ctx: rapid.Bool().Draw(t, "ctx"), Async: true, SeqFirst: rapid.Bool().Draw(t, "seqFirst")})
+		c.Handlers = append(c.Handlers, H{Ctx: rapid.Bool().Draw(t, "ctx"), Async: true, SeqFirst: rapid.Bool().Draw(t, "seqFirst"), FilterMod: rapid.SampledFrom([]int{0, 0, 2, 3, 7}).Draw(t, "filterMod")})
 	}
 	if nh == 2 && rapid.Bool().Draw(t, "staggered") {
 		c.Pre = rapid.IntRange(1, 5).Draw(t, "pre")
@@ -63,7 +63,7 @@ func GenBurst(t *rapid.T) *BurstCase {
 	c := &BurstCase{ViaAny: rapid.IntRange(0, 2).Draw(t, "viaAny") == 0, Ambient: genAmbient(t), N: rapid.SampledFrom([]int{20, 50, 200, 300, 400}).Draw(t, "n"), Rounds: rapid.IntRange(2, 6).Draw(t, "rounds"), Procs: rapid.SampledFrom([]int{2, 4, 16, 16}).Draw(t, "procs")}
 	nh := rapid.IntRange(1, 2).Draw(t, "nh")
 	for i := 0; i < nh; i++ {
-		c.Handlers = append(c.Handlers, H{Ctx: rapid.Bool().Draw(t, "ctx"), Async: true, SeqFirst: rapid.Bool().Draw(t, "seqFirst")})
+		c.Handlers = append(c.Handlers, H{Ctx: rapid.Bool().Draw(t, "ctx"), Async: true, SeqFirst: rapid.Bool().Draw(t, "seqFirst"), FilterMod: rapid.SampledFrom([]int{0, 0, 2, 3, 7}).Draw(t, "filterMod")})
 	}
 	c.Spin = rapid.SliceOfN(rapid.SampledFrom([]int{0, 0, 1, 10, 100}), 0, 4).Draw(t, "spin")
 	return c
